@@ -94,9 +94,25 @@ impl RelocatedAddress {
     #[verifier::external_body] pub fn remove_vas_region_offset(self, offset: usize) -> (r: GlobalAddress) requires offset <= self.0, ensures r.0 == self.0 - offset, { unimplemented!() }
 }
 
+/// what identifies a frame in the cycle guard: a key that carries the frame's CFA tells two activations of the same
+/// call site apart (recursion); a key without it cannot
+pub trait FrameKey {
+    spec fn cfa_of(&self) -> Option<int>;
+}
+impl FrameKey for (RelocatedAddress, RelocatedAddress) {
+    open spec fn cfa_of(&self) -> Option<int> { Some(self.1.0 as int) }
+}
+impl FrameKey for RelocatedAddress {
+    open spec fn cfa_of(&self) -> Option<int> { None }
+}
+
 /// recorder with std's HashSet::new / HashSet::insert contract
 pub struct VisitedSet<K> { pub seen: Ghost<Set<K>> }
-impl<K> VisitedSet<K> {
+impl<K: FrameKey> VisitedSet<K> {
+    /// every recorded frame lies strictly below CFA x (the stack grows downwards: callers have higher CFAs)
+    pub open spec fn all_below(&self, x: int) -> bool {
+        forall|k: K| #[trigger] self.seen@.contains(k) ==> k.cfa_of() is Some && k.cfa_of()->Some_0 < x
+    }
     #[verifier::external_body]
     pub fn new() -> (r: VisitedSet<K>) ensures forall|k: K| !r.seen@.contains(k) { unimplemented!() }
     #[verifier::external_body]
@@ -133,7 +149,7 @@ impl<'a> DwarfUnwinder<'a> {
 //@   loop 0 invariant I_u1: ucx.depth@ + 1 == bt@.len() && ucx.depth@ < frames(self.debugee, pid).len() && ucx.debugee == self.debugee && ucx.location.pid == pid && ecx.frame == ucx.depth@
 //@   loop 0 invariant I_u2: forall|j: int| 0 <= j < bt@.len() ==> (#[trigger] bt@[j]).ip.0 == frames(self.debugee, pid)[j]
 //@   loop 0 invariant I_u3: ucx.cfa.0 == cfas(self.debugee, pid)[ucx.depth@]
-//@   loop 0 invariant I_u4: forall|k: (RelocatedAddress, RelocatedAddress)| #[trigger] visited_frames.seen@.contains(k) ==> k.1.0 < cfas(self.debugee, pid)[ucx.depth@]
+//@   loop 0 invariant I_u4: visited_frames.all_below(cfas(self.debugee, pid)[ucx.depth@] as int)
 //@   loop 0 decreases: frames(self.debugee, pid).len() - ucx.depth@
 //@ end
 
